@@ -16,7 +16,7 @@
    (poleval); avg m X = sum_s init(s) * X(s). *)
 From Coq Require Import QArith Qreals Reals List Bool.
 From MSDM Require Import base.Num base.NumInst model.MDP model.VI model.LAOStar theory.Bellman
-     theory.VITheory theory.LAOStarTheory theory.LAOStarTransfer.
+     theory.VITheory theory.LAOStarTheory theory.LAOStarTransfer theory.LAOStarProper.
 Import ListNotations.
 Local Open Scope R_scope.
 
@@ -222,3 +222,107 @@ Theorem C03_nonvacuous :
               (lV (oR true [true; true; true; true] exV exC exPol exPi (-3#2)%Q))).
 Proof. exact (conj ex_check (conj ex_run ex_hyps)). Qed.
 Print Assumptions C03_nonvacuous.
+
+(* ================================================================== *)
+(* Proper MDPs, ANY discount factor gamma <= 1 (in particular the undiscounted case) at full strength.
+   "Every policy reaches an absorbing state with probability 1" is expressed, as in C04_proper_optimum_unique,
+   by step-count weights for ALL policies:  w >= 0  and  1 + gamma * sum_ns Pm(s,a,ns) * w ns <= w s  for every
+   state and every available action (proper_cert; per case: boolean c_proper evaluated in exact rationals on
+   weights the harness computes as 1 + the largest expected number of steps).  Under it the optimum is
+   UNIQUE, and w is an expected-steps certificate for every policy, so neither the per-case table Nst nor
+   "a certified fixed point" appears any more: Vs is ANY fixed point = THE optimal value function.
+   (Not proved: that every MDP whose policies all terminate with probability 1 admits such weights.)       *)
+(* ================================================================== *)
+
+Theorem C03_proper_optimum_unique :
+  forall (m : mdp R), wf m -> forall w V1 V2, proper_cert m w -> fixpoint m V1 -> fixpoint m V2 ->
+  forall s, (s < nS m)%nat -> V1 s = V2 s.
+Proof. exact proper_unique. Qed.
+Print Assumptions C03_proper_optimum_unique.
+
+(* the weights bound the expected number of steps of EVERY deterministic policy on EVERY closed set *)
+Theorem C03_proper_policy_steps :
+  forall (m : mdp R) w inC pol, proper_cert m w -> closedC m inC pol -> steps_cert m inC pol w.
+Proof. exact proper_steps. Qed.
+Print Assumptions C03_proper_policy_steps.
+
+Theorem C03_proper_optimum :
+  forall nS nA P Rw av ab ini g conv ex V C pol Pi iv tl Vstar W,
+  @c03_proper_check Q NumQ (mk_mdp nS nA P Rw av ab ini g) (mk_lao conv ex V C pol Pi iv) tl Vstar W = all_true11 ->
+  conv = true /\
+  proper_cert (mR nS nA P Rw av ab ini g) (WR W) /\
+  fixpoint (mR nS nA P Rw av ab ini g) (VsR Vstar) /\
+  forall V1 V2, fixpoint (mR nS nA P Rw av ab ini g) V1 -> fixpoint (mR nS nA P Rw av ab ini g) V2 ->
+    forall s, (s < nS)%nat -> V1 s = V2 s.
+Proof.
+  intros nS nA P Rw av ab ini g conv ex V C pol Pi iv tl Vstar W H. split; [|split].
+  - exact (main_proper_converged nS nA P Rw av ab ini g conv ex V C pol Pi iv tl Vstar W H).
+  - exact (mR_proper nS nA P Rw av ab ini g conv ex V C pol Pi iv tl Vstar W H).
+  - exact (main_proper_optimum nS nA P Rw av ab ini g conv ex V C pol Pi iv tl Vstar W H).
+Qed.
+Print Assumptions C03_proper_optimum.
+
+Theorem C03_explored_values_upper_proper :
+  forall nS nA P Rw av ab ini g conv ex V C pol Pi iv tl Vstar W,
+  @c03_proper_check Q NumQ (mk_mdp nS nA P Rw av ab ini g) (mk_lao conv ex V C pol Pi iv) tl Vstar W = all_true11 ->
+  forall Vs, fixpoint (mR nS nA P Rw av ab ini g) Vs ->
+  forall s, (s < nS)%nat -> nthb ex s = true ->
+    Vs s - Q2R (ups tl) <= lV (oR conv ex V C pol Pi iv) s.
+Proof. exact main_proper_explored_upper. Qed.
+Print Assumptions C03_explored_values_upper_proper.
+
+Theorem C03_lao_final_proper :
+  forall nS nA P Rw av ab ini g conv ex V C pol Pi iv tl Vstar W,
+  @c03_proper_check Q NumQ (mk_mdp nS nA P Rw av ab ini g) (mk_lao conv ex V C pol Pi iv) tl Vstar W = all_true11 ->
+  forall Vs Vpi, 0 <= Q2R (rho tl) ->
+  fixpoint (mR nS nA P Rw av ab ini g) Vs ->
+  poleval (mR nS nA P Rw av ab ini g) (nthb C) (nthn pol) Vpi ->
+  forall s, (s < nS)%nat -> nthb C s = true ->
+    Vs s - Q2R (ups tl) <= lV (oR conv ex V C pol Pi iv) s <= Vs s + Q2R (rho tl) * WR W s /\
+    Vs s - (Q2R (ups tl) + Q2R (rho tl) * WR W s) <= Vpi s <= Vs s /\
+    Rabs (lV (oR conv ex V C pol Pi iv) s - Vpi s) <= Q2R (rho tl) * WR W s.
+Proof. exact main_proper_final. Qed.
+Print Assumptions C03_lao_final_proper.
+
+Theorem C03_initial_value_and_return_proper :
+  forall nS nA P Rw av ab ini g conv ex V C pol Pi iv tl Vstar W,
+  @c03_proper_check Q NumQ (mk_mdp nS nA P Rw av ab ini g) (mk_lao conv ex V C pol Pi iv) tl Vstar W = all_true11 ->
+  forall Vs Vpi B, 0 <= Q2R (rho tl) -> 0 <= Q2R (ups tl) ->
+  (forall s, (s < nS)%nat -> nthb C s = true -> WR W s <= B) ->
+  fixpoint (mR nS nA P Rw av ab ini g) Vs ->
+  poleval (mR nS nA P Rw av ab ini g) (nthb C) (nthn pol) Vpi ->
+  Rabs (Q2R iv - avg (mR nS nA P Rw av ab ini g) Vs)
+    <= Q2R (itol tl) + (Q2R (ups tl) + Q2R (rho tl) * B) /\
+  Rabs (avg (mR nS nA P Rw av ab ini g) Vpi - avg (mR nS nA P Rw av ab ini g) Vs)
+    <= Q2R (ups tl) + Q2R (rho tl) * B.
+Proof. exact main_proper_initial. Qed.
+Print Assumptions C03_initial_value_and_return_proper.
+
+Theorem C03_policy_total_and_available_proper :
+  forall nS nA P Rw av ab ini g conv ex V C pol Pi iv tl Vstar W,
+  @c03_proper_check Q NumQ (mk_mdp nS nA P Rw av ab ini g) (mk_lao conv ex V C pol Pi iv) tl Vstar W = all_true11 ->
+  (forall s, preach (mR nS nA P Rw av ab ini g) (oR conv ex V C pol Pi iv) s ->
+     nthb C s = true /\ nthb ex s = true /\ (nthn pol s < nA)%nat /\
+     avail (mR nS nA P Rw av ab ini g) s (nthn pol s) = true /\
+     forall a, (a < nA)%nat ->
+       lPi (oR conv ex V C pol Pi iv) s a = if (a =? nthn pol s)%nat then 1 else 0) /\
+  (forall s a, (s < nS)%nat -> (a < nA)%nat -> 0 < lPi (oR conv ex V C pol Pi iv) s a ->
+     avail (mR nS nA P Rw av ab ini g) s a = true).
+Proof.
+  intros nS nA P Rw av ab ini g conv ex V C pol Pi iv tl Vstar W H. split.
+  - exact (main_proper_policy_total nS nA P Rw av ab ini g conv ex V C pol Pi iv tl Vstar W H).
+  - exact (main_proper_policy_available nS nA P Rw av ab ini g conv ex V C pol Pi iv tl Vstar W H).
+Qed.
+Print Assumptions C03_policy_total_and_available_proper.
+
+(* non-vacuity, UNDISCOUNTED: the 4-state example with gamma = 1, V* = (-2,-1,-2,0), weights (3,2,2,1) *)
+Theorem C03_nonvacuous_proper :
+  @c03_proper_check Q NumQ (mk_mdp 4 2 exP exR exAv exAb exIni 1%Q)
+     (mk_lao true [true; true; true; true] exV1 exC exPol exPi (-2)%Q) exT exVs1 exW1 = all_true11 /\
+  proper_cert (mR 4 2 exP exR exAv exAb exIni 1%Q) (WR exW1) /\
+  fixpoint (mR 4 2 exP exR exAv exAb exIni 1%Q) (VsR exVs1) /\
+  poleval (mR 4 2 exP exR exAv exAb exIni 1%Q) (nthb exC) (nthn exPol)
+          (Vm (mR 4 2 exP exR exAv exAb exIni 1%Q)
+              (lV (oR true [true; true; true; true] exV1 exC exPol exPi (-2)%Q))).
+Proof. exact (conj ex_proper_check ex_proper_hyps). Qed.
+Print Assumptions C03_nonvacuous_proper.
